@@ -75,6 +75,11 @@ def run(run):
         first = first or cases
         files.append(cases)
     _vacuity(files)
+    # zoned records over zones with transitions (TimeZoneMachine, bag steps only): a record with date fields only, or with time fields that are
+    # all zero, is midnight's wall-clock reading under the disambiguation option (skipped / repeated midnights included); full records with
+    # and without an offset of whole minutes under the four offset options
+    cases, n = run.gen("mc/MC_TimeZone.tla", "gen/Gen_C17_zonedbag.cfg", workers=8, name="zonedbag", timeout=1500)
+    run.replay(b, cases, label="zonedbag")
     run.negative_control_replay(b, first, corrupt_case, limit=4000)
     if not q:
         # wrapping (release) arithmetic: the limit cases again
@@ -98,5 +103,5 @@ def run(run):
     run.cov["distinct_nontrivial"] = nontrivial
     run.assumptions += ["the harness maps a JSON partial record to PartialDate/PartialTime field by field (ops_partial.rs) and projects results through public getters; "
                         "the hidden reference day of a year-month is read from to_ixdtf_string(DisplayCalendar::Always)",
-                        "ISO calendar, plus gregory receivers of PlainDate.with for era / eraYear designations and for day and month clamping outside ISO; ZonedDateTime partials in fixed-offset zones (+00:00 in the bounded instance; +05:30, -08:00, +14:00 in sessions)",
+                        "ISO calendar, plus gregory receivers of PlainDate.with for era / eraYear designations and for day and month clamping outside ISO; ZonedDateTime partials in fixed-offset zones (+00:00 in the bounded PartialMachine instance; +05:30, -08:00, +14:00 in sessions) and, for the time-less / zero-time / full records of the TimeZoneMachine bag steps, in the 169 synthetic zones of C13's instance",
                         "a record that lacks a required field must be a TypeError even if a supplied field is also out of range (Temporal's order of checks)"]
